@@ -178,7 +178,7 @@ def decode_check(chk, run, judge):
                 per_driver.setdefault((exe, cxx, std, c.idx), []).append((c, m, v, mk))
     nontrivial = set()
     for (exe, cxx, std, _), items in per_driver.items():
-        rc, outs = run.run_driver(exe, ['decode %s %s' % (m['name'], mk['image']) for (c, m, v, mk) in items])
+        rc, outs = run.run_driver(exe, [decode_line(m, mk) for (c, m, v, mk) in items])
         if rc != 0 or len(outs) != len(items):
             chk.report_unproved('driver-run', {'rc': rc, 'answers': len(outs), 'requests': len(items)})
             continue
@@ -191,7 +191,7 @@ def decode_check(chk, run, judge):
             for kind, detail in problems:
                 rep = {'kind': kind, 'config': {'cxx': cxx, 'std': std}, 'schema_xml': open(c.xml).read(),
                        'message': m['name'], 'image': mk['image'], 'observed': detail,
-                       'driver_line': 'decode %s %s' % (m['name'], mk['image']),
+                       'driver_line': decode_line(m, mk),
                        'case': dict(detail.get('case', {}), cxx=cxx, std=std,
                                     root_members=len(m['level']['leaves']) + len(m['level']['groups'])
                                     + len(m['level']['datas']))}
@@ -203,6 +203,15 @@ def decode_check(chk, run, judge):
                 chk.sample({'message': m['name'], 'image': mk['image'][:120], 'spec_obs': mk['spec'][:300]})
     chk.cov['distinct_nontrivial'] += len(nontrivial)
     return per_driver
+
+
+def decode_line(m, mk):
+    """driver request: image, then the trait-level size_bytes arguments (total
+    entry counts per group in pre-order, total data size if the message has data)"""
+    args = [x for x in mk.get('counts', '').split(',') if x]
+    if len(wire.trait_param_types(m['level'])) == len(args) + 1:
+        args.append(mk.get('tdata', '0'))
+    return 'decode %s %s %s' % (m['name'], mk['image'], ' '.join(args))
 
 
 def first_diff(a, b):
